@@ -876,7 +876,8 @@ class NumEnv:
         if kind == "abs":
             return abs(ev(args[0]))
         if kind == "inv":
-            return 1.0 / ev(args[0])
+            with np.errstate(divide="ignore", invalid="ignore"):
+                return float(np.float64(1.0) / np.float64(ev(args[0])))  # 1/0 = inf: guarded divisions select it away
         if kind == "ite":
             return ev(args[1]) if self.evalb(args[0], env) else ev(args[2])
         if kind == "max":
@@ -1206,6 +1207,7 @@ def triage(ob, numenv: NumEnv, seed, npoints=6, detail=None, requires=(), assump
     witness = None
     model = None
     valid_points = 0
+    model_error = None
     if isinstance(detail, dict):
         model = detail.get("model") or (detail.get("smt") or {}).get("model") if isinstance(detail.get("smt"), dict) or detail.get("model") else None
     try:
@@ -1262,7 +1264,7 @@ def triage(ob, numenv: NumEnv, seed, npoints=6, detail=None, requires=(), assump
                             witness["internal"] = False
                         return {"numeric_worst": 1.0, "holds_numerically": False, "witness": witness}
     except Exception as e:
-        pass
+        model_error = repr(e)[:300]
     try:
         for k in range(npoints):
             arrays = numenv.point(seed + 77 * (k + 1))
@@ -1290,6 +1292,8 @@ def triage(ob, numenv: NumEnv, seed, npoints=6, detail=None, requires=(), assump
     except Exception as e:
         return {"triage_error": repr(e)[:300], "holds_numerically": False}
     out = {"numeric_worst": worst, "holds_numerically": witness is None and worst < 1e-7, "points_inside_precondition": valid_points}
+    if model_error:
+        out["solver_model_could_not_be_evaluated"] = model_error
     if witness:
         out["witness"] = witness
     return out
